@@ -45,11 +45,11 @@ SAMPLE_TEXT = (
 
 def cases(ctx):
     rng = ctx.rng
-    for i in range(ctx.per_shard(ctx.pick(480, 12000))):
+    for i in range(ctx.per_shard(ctx.pick(480, 48000))):
         yield {"kind": "reject", "seed": rng.getrandbits(32)}
-    for i in range(ctx.per_shard(ctx.pick(300, 10000))):
+    for i in range(ctx.per_shard(ctx.pick(300, 40000))):
         yield {"kind": "equiv", "seed": rng.getrandbits(32), "child": rng.random() < ctx.pick(0.03, 0.03), "strace": not ctx.quick}
-    for i in range(ctx.per_shard(ctx.pick(80, 2500))):
+    for i in range(ctx.per_shard(ctx.pick(80, 10000))):
         yield {"kind": "defaults", "seed": rng.getrandbits(32)}
 
 
